@@ -1082,7 +1082,11 @@ class Gen:
                     segs += [(n, "id:member")] + tail + [(";", "punct")]
                     L.append(Line("td_member", segs, 1))
             if tname:
-                L.append(Line("td_close", [("}", "punct"), TAB(pad_tabs(1, col)), (tname, "id:type"), (";", "punct")], 0, -1))
+                close = [("}", "punct"), TAB(pad_tabs(1, col))]
+                if kind != "enum" and r.random() < 0.15:
+                    self.feats.add("h_typedef_pointer_name")
+                    close.append(("*", "op:ptr"))
+                L.append(Line("td_close", close + [(tname, "id:type"), (";", "punct")], 0, -1))
             else:
                 L.append(Line("td_close", [("}", "punct"), (";", "punct")], 0, -1))
             L.append(Line("blank", []))
